@@ -15,7 +15,8 @@ fn main() {
         Some("gen") => {
             let cfg = gen::Config::parse(a.get(2).map(|s| s.as_str()).unwrap_or("owning-std-nomerge-btreemap-str")).expect("cfg");
             let wit = std::fs::read_to_string(&a[1]).expect("wit file");
-            match gen::generate(&wit, &cfg) {
+            let dirs: Vec<String> = a.iter().skip(3).cloned().collect();
+            match gen::generate_async(&wit, &cfg, &dirs) {
                 Ok(s) => println!("{s}"),
                 Err(e) => {
                     eprintln!("{e}");
